@@ -122,7 +122,7 @@ class Folder:
             d = A.dotted(n)
             if d:
                 r = self.repo.resolve_name(mod, d)
-                if r and r[0] == "value":
+                if r and r[0] == "value" and "." not in r[2]:
                     return self.module_value(r[1].name, r[2])
                 # class attribute, e.g. Channel.FRAME_HEADER / self.FRAME_HEADER handled by callers
             base = self._fold(n.value, mod, env)
